@@ -116,8 +116,8 @@ def c07h_shapes(tier):
 def c04_shapes(tier):
     # (ops, flow rule on r0, isolation threshold on r1, sums after every op)
     if tier == 'quick':
-        return [(3, 1, 1, 0), (2, 0, 2, 1)]
-    return [(4, 1, 1, 0), (4, 0, 1, 0), (3, 1, 2, 1), (3, 0, 0, 1)]
+        return [(3, 1, 1, 0), (2, 0, 2, 1), (3, 2, 0, 1)]
+    return [(4, 1, 1, 0), (4, 0, 1, 0), (3, 1, 2, 1), (3, 0, 0, 1), (4, 2, 0, 1)]
 
 def c05_shapes(tier):
     if tier == 'quick':
@@ -126,7 +126,7 @@ def c05_shapes(tier):
 
 def c13_shapes(tier):
     if tier == 'quick':
-        return [(0, 0, 0), (1, 2, 1), (2, 1, 2), (0, 3, 1), (2, 2, 2)]
+        return [(0, 0, 0), (1, 2, 1), (2, 1, 2), (0, 3, 1), (2, 2, 2), (1, 0, 2), (0, 0, 1), (0, 1, 0), (2, 1, 0)]
     out = []
     for a in range(0, 4):
         for b in range(0, 4):
@@ -142,29 +142,33 @@ def c10_shapes(tier):
     return [(f, 3, 0) for f in range(5)] + [(f, 2, 1) for f in range(5)] + [(3, 3, 1), (4, 3, 1)]
 
 def c12_shapes(fam, tier):
+    """the last position (p7) = 1 adds a later append of a good rule on the same resource and a second round of entries"""
     import itertools
+    def pad(t, later):
+        t = tuple(t)
+        return t + (0,) * (7 - len(t)) + (1 if later else 0,)
     out = []
     if fam == 'flow':
         full = list(itertools.product(range(4), range(3), range(4), range(3), range(6), range(2)))
         if tier != 'quick':
-            return full
+            return [pad(t, i % 3 == 0) for i, t in enumerate(full)]
         for i, (a, b, c) in enumerate(itertools.product(range(4), range(3), range(4))):
-            out.append((a, b, c, i % 3, (i * 5 + a) % 6, 1 if i % 17 == 0 else 0))
+            out.append(pad((a, b, c, i % 3, (i * 5 + a) % 6, 1 if i % 17 == 0 else 0), i % 2 == 0))
         return out
     if fam == 'breaker':
         full = list(itertools.product(range(4), range(3), range(6), range(2)))
         if tier != 'quick':
-            return full
+            return [pad(t, i % 3 == 0) for i, t in enumerate(full)]
         for i, (a, b) in enumerate(itertools.product(range(4), range(3))):
-            out.append((a, b, (i * 5) % 6, 0))
-            out.append((a, b, (i * 5 + 3) % 6, 1 if i % 5 == 0 else 0))
+            out.append(pad((a, b, (i * 5) % 6, 0), True))
+            out.append(pad((a, b, (i * 5 + 3) % 6, 1 if i % 5 == 0 else 0), False))
         return out
     if fam == 'hotspot':
         full = list(itertools.product(range(2), range(3), range(7), range(3), (0, 1, 3), range(2), range(2)))
         if tier != 'quick':
-            return full
+            return [pad(t, i % 3 == 0) for i, t in enumerate(full)]
         for i, (a, b, c) in enumerate(itertools.product(range(2), range(3), range(7))):
-            out.append((a, b, c, i % 3, (0, 1, 3)[(i // 2) % 3], i % 2, 1 if i % 19 == 0 else 0))
+            out.append(pad((a, b, c, i % 3, (0, 1, 3)[(i // 2) % 3], i % 2, 1 if i % 19 == 0 else 0), i % 3 != 2))
         return out
     if fam == 'iso_sys':
         full = [(0, 0, e, 0, r) for e in range(3) for r in range(2)] + [(m, st, e, t, 0) for m in range(1, 6) for st in range(2) for e in (0, 2) for t in range(6)]
@@ -179,12 +183,13 @@ def c12_shapes(fam, tier):
 def c09_shapes(tier):
     # (metric, strategy, history, second rule metric + 1)
     if tier == 'quick':
-        return [(0, 0, 2, 0), (0, 1, 2, 0), (4, 0, 1, 0), (4, 1, 2, 0), (1, 0, 2, 0), (2, 0, 2, 0), (3, 0, 2, 0), (2, 0, 1, 4), (0, 1, 1, 3), (0, 1, 4, 0, 1)]
+        return [(0, 0, 2, 0), (0, 1, 2, 0), (4, 0, 1, 0), (4, 1, 2, 0), (1, 0, 2, 0), (2, 0, 2, 0), (3, 0, 2, 0), (2, 0, 1, 4), (0, 1, 1, 3), (0, 1, 4, 0, 1), (3, 0, 1, 0, 0, 1)]
     out = []
     for m in range(5):
         for st in ((0, 1) if m in (0, 4) else (0,)):
             out.append((m, st, 3, 0))
-    out += [(2, 0, 2, 4), (0, 1, 2, 3), (4, 1, 2, 2), (1, 0, 2, 5), (3, 1, 2, 1), (0, 1, 4, 0, 1), (4, 1, 4, 0, 1), (0, 1, 5, 0, 1)]
+    out += [(2, 0, 2, 4), (0, 1, 2, 3), (4, 1, 2, 2), (1, 0, 2, 5), (3, 1, 2, 1), (0, 1, 4, 0, 1), (4, 1, 4, 0, 1), (0, 1, 5, 0, 1),
+            (3, 0, 1, 0, 0, 2), (3, 0, 2, 0, 0, 1), (1, 0, 2, 0, 0, 1), (2, 0, 2, 0, 0, 1), (0, 1, 2, 0, 0, 1), (4, 0, 2, 3, 0, 1)]
     return out
 
 def c08_shapes(tier):
@@ -338,7 +343,7 @@ PROPS = {
     'C09': {
         'level': 'model_checking',
         'bounds': 'all five metric types x both strategies, 1-2 rules; thresholds symbolic in quarters in [0,4] (CPU: [0,100]); injected load in quarters in [0,1], CPU in {0,25,50,75,100}; '
-                  'inbound history of 1-2 (quick) / 2-3 (thorough) entries with symbolic gaps in [0,600] ms, each completed after 10/100/250 ms or left open (plus a BBR pattern: two completed entries with response times from {1,100,1000} ms and two or three left in flight); probe inbound or outbound after a gap in [0,600] ms',
+                  'inbound history of 1-2 (quick) / 2-3 (thorough) entries with symbolic gaps in [0,600] ms, each completed after 10/100/250 ms or left open (plus a BBR pattern: two completed entries with response times from {1,100,1000} ms and two or three left in flight); probe inbound or outbound after a gap in [0,600] ms; selected shapes with 2-3 probes in a row (an admitted probe completes at once and is accounted, a rejected one must leave no trace in what the next probe sees)',
         'assumptions': ['load/CPU readings injected through the verif_set_readings hook', 'chain of the real prepare, system and resource-statistic slots plus an observer slot',
                         'observed values recomputed from a ledger with the window function of the default metric (two 500 ms buckets)'],
         'scenarios': [
@@ -351,7 +356,7 @@ PROPS = {
         'bounds': 'one rule per run; enum-valued fields of all five families as shapes (thorough: the full cross product, quick: a covering sample): flow calculate x control x relation '
                   '(incl. Custom(7), an associated resource never seen, an empty associated name), breaker strategies incl. Custom, hotspot metric x control x param index -3..3 x keyed, system metric x strategy; '
                   'thresholds from {-1, 0, 0.5, 1, 1e6, NaN}; every other numeric field symbolic over three boundary values (0 / 1 / large); loading entry point in {load-all, load-for-resource, append}; '
-                  'empty resource names; then two entries (batch in {0,1,1e6}, 0/1/3 args, attachments) with exits 700 ms later, then a health probe of every manager',
+                  'empty resource names; then two entries (batch in {0,1,1e6}, 0/1/3 args, attachments) with exits 700 ms later; for a third to a half of the shapes then an append of a known-good rule on the same resource (an ignored invalid rule must stay ignored) and two more entries; then a health probe of every manager',
         'assumptions': ['no panic path may exist: a panic found symbolically is replayed natively (exit code 101)', 'log level Off; formatting opaque',
                         'system memory size modelled as 64 GiB (memory-adaptive water marks in the harness are far below)'],
         'scenarios': [
@@ -392,12 +397,12 @@ PROPS = {
     },
     'C04': {
         'level': 'model_checking',
-        'bounds': 'two resources (one inbound, one outbound), optional flow rule (threshold symbolic in [0,4]) on the first and isolation rule on the second; op sequences of length 3-4 (quick) / 4-5 (thorough) '
+        'bounds': 'two resources (one inbound, one outbound), optional flow rule (reject with threshold symbolic in [0,4]; or throttling 10/s with queueing up to 500 ms on one resource and gaps <= 300 ms, so that entries are held before they pass) on the first and isolation rule on the second; op sequences of length 3-4 (quick) / 4-5 (thorough) '
                   'over {build r0, build r1, exit first/second open entry}; batch in [1,3]; gaps in [0,1200] ms; after every op all counters of both nodes and of the inbound node are compared with a ledger',
         'assumptions': ['virtual clock', 'window function of the default metric: two 500 ms buckets ending at the current bucket'],
         'scenarios': [
             {'name': 'c04_accounting', 'shapes': {'quick': c04_shapes('quick'), 'thorough': c04_shapes('thorough')},
-             'witnesses': ['pass', 'block'], 'selftest': {'quick': 8, 'thorough': 40}},
+             'witnesses': ['pass', 'block', 'queued'], 'selftest': {'quick': 8, 'thorough': 40}},
         ],
     },
     'C05': {
